@@ -36,22 +36,22 @@ def toks_of(text):
 
 
 def _limits():
-    # a preprocessor run on these tiny inputs needs milliseconds of CPU: a run that burns 10 s of CPU time or
-    # 4 GB (runaway #include recursion) is killed and counts as a failed run, independent of machine load
+    # a preprocessor run on these tiny inputs needs milliseconds of CPU: a run that burns 3 s of CPU time or
+    # 1 GB (runaway #include recursion) is killed and counts as a failed run, independent of machine load
     import resource
-    resource.setrlimit(resource.RLIMIT_CPU, (10, 10))
-    resource.setrlimit(resource.RLIMIT_AS, (4 << 30, 4 << 30))
+    resource.setrlimit(resource.RLIMIT_CPU, (3, 3))
+    resource.setrlimit(resource.RLIMIT_AS, (1 << 30, 1 << 30))
 
 
-def run_E(cc, argv, cwd, timeout=20, env=None):
-    for tmo in (timeout, 6 * timeout):
+def run_E(cc, argv, cwd, timeout=30, env=None):
+    for tmo in (timeout, 10 * timeout):
         try:
             p = subprocess.run([cc, "-E"] + argv, cwd=cwd, capture_output=True, text=True, timeout=tmo, env=env,
                                errors="replace", preexec_fn=_limits)
             return p.returncode, p.stdout, p.stderr
         except subprocess.TimeoutExpired:
             continue
-    raise Infra("chibicc -E %s did not finish within %ds" % (" ".join(argv)[-200:], 6 * timeout))
+    raise Infra("chibicc -E %s did not finish within %ds" % (" ".join(argv)[-200:], 10 * timeout))
 
 
 def gcc_E(argv, cwd):
